@@ -1,6 +1,7 @@
 import GV.Model.Era
 import GV.Model.EraConsts
 import GV.Gen.Eras
+import GV.Gen.EraLadders
 /-!
 C36 — Era dispatch is consistent across every entry point.
 
@@ -179,6 +180,29 @@ theorem determine_none_above (len m : Nat) (h : 64 < m) :
   have : ∀ e ∈ eras, e.maxPV ≤ 64 := by decide
   have := this e he
   unfold inEra at hm; omega
+
+/-! ### the ladders of DetermineBlockType, re-extracted from the source -/
+
+/-- the range a rung `(pkg.MinProtocolVersionX, pkg.MaxProtocolVersionX, BlockTypeX)` denotes: the rung
+    must name the Min, the Max and the block type of ONE era package (checked against the dumped
+    era names), otherwise `none` -/
+def rungRange (r : String × String × String) : Option Range :=
+  (eras.find? fun e =>
+      r.1 == e.name ++ ".MinProtocolVersion" ++ e.eraName &&
+      r.2.1 == e.name ++ ".MaxProtocolVersion" ++ e.eraName &&
+      r.2.2 == "BlockType" ++ e.eraName).map fun e => ⟨e.minPV, e.maxPV, e.blockType⟩
+
+/-- **Regenerated tie**: the two ladders of the model are, rung by rung and in order, the ladders in
+    the Go source of `DetermineBlockType` (each rung = one era's own Min/Max constants and block type;
+    a literal, a `+1`, a swapped constant or a reordered/added/removed rung breaks this obligation), the
+    two length cases are the two named constants, and `inProtocolRange` is the inclusive test. -/
+theorem ladders_as_in_source :
+    GV.Gen.EraLadders.lengths = ["HeaderBodyLengthBabbageLike", "HeaderBodyLengthShelleyLike"] ∧
+    GV.Gen.EraLadders.HeaderBodyLengthShelleyLike.map rungRange = (ladder15 genConsts).map some ∧
+    GV.Gen.EraLadders.HeaderBodyLengthBabbageLike.map rungRange = (ladder10 genConsts).map some ∧
+    GV.Gen.EraLadders.inProtocolRange = ["return protoMajor >= min && protoMajor <= max"] := by
+  decide
+
 
 /-! ### the two maps -/
 
